@@ -2,6 +2,7 @@
 use crate::spy;
 use crate::stubs::*;
 use crate::uf::Uf;
+use md5_plain;
 use binrw::{BinRead, BinWrite, Endian};
 use cascette_formats::encoding::{CKeyPageEntry, EKeyPageEntry, EncodingError, EncodingFile, EncodingHeader, IndexEntry};
 use std::io::Cursor;
@@ -57,9 +58,9 @@ macro_rules! enc_header {
 // @encodes cascette_formats::encoding::header::EncodingHeader::read_options, cascette_formats::encoding::header::EncodingHeader::validate, cascette_formats::encoding::header::EncodingHeader::data_size, cascette_formats::encoding::header::EncodingHeader::ckey_page_size
 // @assumes std::fmt::format stubbed; allocator spy
 // @catches a validate() constraint dropped or its bound changed (hash size 16 -> 17 lets the page-entry readers slice a 16-byte key out of range), field order / endianness, overflow in data_size
-enc_header!(c02_encoding_header_n21, 21);
-enc_header!(c02_encoding_header_n22, 22);
-enc_header!(c02_encoding_header_n30, 30);
+// UNVERIFIED(not run to completion within the time budget): enc_header!(c02_encoding_header_n21, 21);
+// UNVERIFIED(not run to completion within the time budget): enc_header!(c02_encoding_header_n22, 22);
+// UNVERIFIED(not run to completion within the time budget): enc_header!(c02_encoding_header_n30, 30);
 // @end
 
 // ---- page entries -----------------------------------------------------------------------------------------
@@ -92,11 +93,11 @@ macro_rules! enc_entry_total {
 // @encodes cascette_formats::encoding::entry::CKeyPageEntry::read_options, cascette_formats::encoding::entry::EKeyPageEntry::read_options
 // @assumes std::fmt::format stubbed; allocator spy
 // @catches key slice wider than the 16-byte buffer, missing EOF handling in the key loop, padding sentinel mishandled as panic
-enc_entry_total!(c02_encoding_ckey_entry_n5, 5, 4, false, |c, hs| CKeyPageEntry::read_options(&mut c, Endian::Big, hs));
-enc_entry_total!(c02_encoding_ckey_entry_n38, 38, 5, true, |c, hs| CKeyPageEntry::read_options(&mut c, Endian::Big, hs));
-enc_entry_total!(c02_encoding_ckey_entry_n64, 64, 8, true, |c, hs| CKeyPageEntry::read_options(&mut c, Endian::Big, hs));
-enc_entry_total!(c02_encoding_ekey_entry_n9, 9, 20, false, |c, hs| EKeyPageEntry::read_options(&mut c, Endian::Big, (hs.1,)));
-enc_entry_total!(c02_encoding_ekey_entry_n25, 25, 20, true, |c, hs| EKeyPageEntry::read_options(&mut c, Endian::Big, (hs.1,)));
+// UNVERIFIED(not run to completion within the time budget): enc_entry_total!(c02_encoding_ckey_entry_n5, 5, 4, false, |c, hs| CKeyPageEntry::read_options(&mut c, Endian::Big, hs));
+// UNVERIFIED(not run to completion within the time budget): enc_entry_total!(c02_encoding_ckey_entry_n38, 38, 5, true, |c, hs| CKeyPageEntry::read_options(&mut c, Endian::Big, hs));
+// UNVERIFIED(not run to completion within the time budget): enc_entry_total!(c02_encoding_ckey_entry_n64, 64, 8, true, |c, hs| CKeyPageEntry::read_options(&mut c, Endian::Big, hs));
+// UNVERIFIED(not run to completion within the time budget): enc_entry_total!(c02_encoding_ekey_entry_n9, 9, 20, false, |c, hs| EKeyPageEntry::read_options(&mut c, Endian::Big, (hs.1,)));
+// UNVERIFIED(not run to completion within the time budget): enc_entry_total!(c02_encoding_ekey_entry_n25, 25, 20, true, |c, hs| EKeyPageEntry::read_options(&mut c, Endian::Big, (hs.1,)));
 // @end
 
 // ---- whole-file parse, minimal inputs (allocation focus) ------------------------------------------------------
@@ -131,12 +132,12 @@ macro_rules! enc_parse_alloc {
 // @encodes cascette_formats::encoding::file::EncodingFile::parse, cascette_formats::encoding::header::EncodingHeader::validate, cascette_formats::encoding::espec::ESpecTable::parse
 // @assumes std::fmt::format stubbed; allocator spy
 // @catches KF: `vec![0u8; espec_block_size]` (4 GiB from a 22-byte input) and `Vec::with_capacity(ckey_page_count)` (up to 128 GiB from a 24-byte input) sized from unchecked header fields
-enc_parse_alloc!(c02_encoding_parse_alloc_espec, 22, 0xFFFF_FFFF, "KF:encoding_parse_espec_block allocation request out of proportion to input");
-enc_parse_alloc!(c02_encoding_parse_alloc_pages, 24, 2, "KF:encoding_parse_page_count allocation request out of proportion to input");
+// UNVERIFIED(not run to completion within the time budget): enc_parse_alloc!(c02_encoding_parse_alloc_espec, 22, 0xFFFF_FFFF, "KF:encoding_parse_espec_block allocation request out of proportion to input");
+// UNVERIFIED(not run to completion within the time budget): enc_parse_alloc!(c02_encoding_parse_alloc_pages, 24, 2, "KF:encoding_parse_page_count allocation request out of proportion to input");
 // @end
 
 // ---- C08: header and page entries -------------------------------------------------------------------------------
-// @harness prop=C08 tier=quick timeout=900 role=encoding-header-roundtrip
+// UNVERIFIED harness prop=C08 tier=quick timeout=900 role=encoding-header-roundtrip
 // @bounds 22 symbolic header bytes; and independently all header field values symbolic
 // @encodes cascette_formats::encoding::header::EncodingHeader::read_options, cascette_formats::encoding::header::EncodingHeader::write_options
 // @catches field order / width differing between reader and writer, endianness
@@ -227,10 +228,10 @@ macro_rules! enc_entry_rt {
 // @bounds record bytes symbolic: CKey entry with up to 2 encoding keys (N = 54) for key widths 16/16 and 9/9 (N = 33); EKey entry (N = 25, width 16; N = 18, width 9); 40-bit sizes arbitrary
 // @encodes cascette_formats::encoding::entry::CKeyPageEntry::read_options, cascette_formats::encoding::entry::CKeyPageEntry::write_options, cascette_formats::encoding::entry::EKeyPageEntry::read_options, cascette_formats::encoding::entry::EKeyPageEntry::write_options
 // @catches 40-bit size split into high byte / low word inconsistently, keys truncated to the wrong width, key_count not matching the keys written
-enc_entry_rt!(c08_encoding_ckey_entry_rt_w16, 54, 5, CKeyPageEntry, (16u8, 16u8));
-enc_entry_rt!(c08_encoding_ckey_entry_rt_w9, 33, 5, CKeyPageEntry, (9u8, 9u8));
-enc_entry_rt!(c08_encoding_ekey_entry_rt_w16, 25, 20, EKeyPageEntry, (16u8,));
-enc_entry_rt!(c08_encoding_ekey_entry_rt_w9, 18, 20, EKeyPageEntry, (9u8,));
+// UNVERIFIED(not run to completion within the time budget): enc_entry_rt!(c08_encoding_ckey_entry_rt_w16, 54, 5, CKeyPageEntry, (16u8, 16u8));
+// UNVERIFIED(not run to completion within the time budget): enc_entry_rt!(c08_encoding_ckey_entry_rt_w9, 33, 5, CKeyPageEntry, (9u8, 9u8));
+// UNVERIFIED(not run to completion within the time budget): enc_entry_rt!(c08_encoding_ekey_entry_rt_w16, 25, 20, EKeyPageEntry, (16u8,));
+// UNVERIFIED(not run to completion within the time budget): enc_entry_rt!(c08_encoding_ekey_entry_rt_w9, 18, 20, EKeyPageEntry, (9u8,));
 // @end
 
 // ---- C07: page checksum (ideal hash) ---------------------------------------------------------------------------
@@ -240,7 +241,7 @@ static mut MD5: Uf<{ WORDS + 1 }, 2, 4> = Uf::new();
 
 fn md5_model(data: &[u8]) -> [u8; 16] {
     if cfg!(vreplay) {
-        return md5::compute(data).0;
+        return md5_plain::compute(data).0;
     }
     // ideal hash over (length, content); the model only supports inputs up to one page
     assert!(data.len() <= PAGE, "md5 model: input longer than one page");
@@ -257,8 +258,8 @@ fn md5_model(data: &[u8]) -> [u8; 16] {
     out[8..].copy_from_slice(&o[1].to_le_bytes());
     out
 }
-fn md5_stub<T: AsRef<[u8]>>(data: T) -> md5::Digest {
-    md5::Digest(md5_model(data.as_ref()))
+fn md5_stub<T: AsRef<[u8]>>(data: T) -> md5_plain::Digest {
+    md5_plain::Digest(md5_model(data.as_ref()))
 }
 
 fn page_header() -> EncodingHeader {
@@ -271,68 +272,40 @@ fn page_header() -> EncodingHeader {
     h
 }
 
-macro_rules! enc_page_checksum {
-    ($name:ident, $f:ident, $first:expr, $sym_lo:expr, $sym_hi:expr, $extra:expr) => {
-        #[kani::proof]
-        #[kani::unwind(1030)]
-        #[kani::stub(std::fmt::format, fmt_format_empty)]
-        #[kani::stub(md5::compute, md5_stub)]
-        fn $name() {
-            // page = [first byte concrete][symbolic bytes lo..hi][zero padding][one more symbolic byte at $extra]
-            let sym: [u8; PAGE] = kani::any();
-            let mut page = [0u8; PAGE];
-            page[0] = $first;
-            let mut i = $sym_lo;
-            while i < $sym_hi {
-                page[i] = sym[i];
-                i += 1;
-            }
-            page[$extra] = sym[$extra];
-            let stored: [u8; 16] = kani::any(); // checksum field of the page index
-            let first_key: [u8; 16] = kani::any();
-            let j: usize = kani::any();
-            kani::assume(j < 16);
-            let h = page_header();
-            let idx = [IndexEntry::new(first_key, stored)];
-            let mut c = Cursor::new(&page[..]);
-            let r = EncodingFile::$f(&mut c, &h, &idx);
-            let actual = md5_model(&page);
-            kani::cover!(r.is_ok(), "page accepted");
-            kani::cover!(r.is_err(), "page rejected");
-            match &r {
-                Ok(pages) => {
-                    assert!(stored[j] == actual[j], "page accepted although its MD5 differs from the index checksum (every digest byte, every page byte)");
-                    assert!(pages.len() == 1 && pages[0].original_data.len() == PAGE, "one page returned");
-                }
-                Err(e) => {
-                    // the only reason to reject this page is the checksum, and it must be reported as such
-                    // (check-before-use: no entry of an unverified page is parsed first)
-                    assert!(matches!(e, EncodingError::ChecksumMismatch), "a page failing verification must be rejected as ChecksumMismatch before its entries are parsed");
-                    let mut same = true;
-                    let mut k = 0;
-                    while k < 16 {
-                        same &= stored[k] == actual[k];
-                        k += 1;
-                    }
-                    assert!(!same, "page with a matching checksum rejected");
-                }
-            }
-            std::mem::forget(r);
-        }
-    };
-}
-// @family prop=C07 tier=quick timeout=1500 mem=24 role=encoding-page-checksum
-// @bounds one 1024-byte page (smallest the header allows): first entry symbolic (CKey: key_count 1, 37 symbolic bytes; EKey: 25 symbolic bytes), zero padding, plus one further symbolic byte (the last byte of the page / the byte after the first entry); stored checksum (16 bytes) and first key symbolic
-// @encodes cascette_formats::encoding::file::EncodingFile::parse_ckey_pages, cascette_formats::encoding::file::EncodingFile::parse_ekey_pages, cascette_formats::encoding::index::IndexEntry::verify
-// @assumes MD5 (md5::compute) is an ideal hash: uninterpreted function of (length, bytes), injective on the inputs that occur (uf::Uf::apply_injective); native replay uses the real MD5
-// @catches verify() skipped or its result ignored, digest compared on a prefix only, hash taken over part of the page (last byte / first byte left out), entries parsed before the checksum is checked (wrong error for a corrupt page)
-enc_page_checksum!(c07_encoding_ckey_page_checksum, verif_parse_ckey_pages, 1, 1, 38, PAGE - 1);
-enc_page_checksum!(c07_encoding_ekey_page_checksum, verif_parse_ekey_pages, 0x11, 1, 25, PAGE - 1);
-// @end
+// NOT REGISTERED (measured): parse_ckey_pages / parse_ekey_pages through the cfg(kani) shims on one 1024-byte page
+// (smallest page a header can describe): the page loop drops binrw::Error values (padding detection), whose drop glue
+// recursion is unrolled to the global unwind bound, and the 1024-byte page needs a bound > 1024 -> no result in
+// 8 min / 6 GB.  The checksum primitive itself is checked below on a fully symbolic page; the order of check inside
+// the page parsers (verify before entry parsing) is therefore outside this claim.
 
+// @harness prop=C07 tier=quick timeout=1500 mem=24 role=encoding-page-verify
+// @bounds one page of 1024 fully symbolic bytes, stored checksum (16 bytes) and first key symbolic
+// @encodes cascette_formats::encoding::index::IndexEntry::verify
+// @assumes MD5 (md5::compute) is an ideal hash: uninterpreted function of (length, bytes), injective on the inputs that occur; native replay uses the real MD5
+// @catches digest compared on a prefix only, hash taken over part of the page (first / last byte left out), comparison inverted, checksum field confused with first_key
 #[kani::proof]
-#[kani::stub(md5::compute, md5_stub)]
-fn zz_probe_md5() {
-    let d = md5::compute([1u8, 2]);
-    std::mem::forget(d);
+#[kani::unwind(1030)]
+#[kani::stub(md5_plain::compute, md5_stub)]
+fn c07_encoding_page_verify() {
+    let page: [u8; PAGE] = kani::any();
+    let stored: [u8; 16] = kani::any();
+    let first_key: [u8; 16] = kani::any();
+    let j: usize = kani::any();
+    kani::assume(j < 16);
+    let ix = IndexEntry::new(first_key, stored);
+    let ok = ix.verify(&page);
+    let actual = md5_model(&page);
+    kani::cover!(ok, "page accepted");
+    kani::cover!(!ok, "page rejected");
+    if ok {
+        assert!(stored[j] == actual[j], "page accepted although its MD5 differs from the index checksum (every digest byte, every page byte)");
+    } else {
+        let mut same = true;
+        let mut k = 0;
+        while k < 16 {
+            same &= stored[k] == actual[k];
+            k += 1;
+        }
+        assert!(!same, "page with a matching checksum rejected");
+    }
 }
